@@ -42,6 +42,7 @@ def dispatch (line : String) : String :=
   | some (.atom "c12use" :: args) => Driver.C12.handle args
   | some (.atom "c13skip" :: args) => Driver.C13.handle args
   | some (.atom "c18" :: args) => Driver.C18.handle args
+  | some (.atom "tslist" :: args) => Driver.C18.handleList args
   | some (.atom "c19" :: args) => Driver.C19.handle args
   | some (.atom "c20" :: args) => Driver.C20.handle args
   | some (.atom "c20find" :: args) => Driver.C20.handleFind args
